@@ -266,7 +266,7 @@ pub fn run(tier: Tier) -> i32 {
     patterns.push(r"/a/b/(".to_string());
     patterns.push(r"Abc/(?:[a-z]+)".to_string());
     for (unique, ignore_case) in [(false, false), (false, true), (true, false)] {
-        let cfg = c08::Config { set: if unique { "main-unique".into() } else { "main".into() }, patterns: patterns.clone(), unique, ignore_case, second_ids: false, cache_ops: true };
+        let cfg = c08::Config { set: if unique { "main-unique".into() } else { "main".into() }, patterns: patterns.clone(), unique, ignore_case, second_ids: false, cache_ops: true, insert_only: false };
         let model = c08::Model::new(&ctx, cfg.clone(), "C12", true);
         let depth = tier.pick(3, 4);
         let st = explore(&ctx, &model, depth);
